@@ -389,4 +389,11 @@ def c02_h(ctx: Ctx):
     return res
 
 
-RULES = [c02_a, c02_b, c02_c, c02_d, c02_e, c02_f, c02_g, c02_h]
+@rule("C02-i")
+def c02_i(ctx: Ctx):
+    """Whole-module cross-checks: no exchanged positional arguments in resolved internal calls; diagnostics (logging / warnings) do no work."""
+    from .lints import swapped_arguments, pure_logging
+    return swapped_arguments(ctx, "C02-i", ['signac.job', 'signac.project']) + pure_logging(ctx, "C02-i", ['signac.job', 'signac.project', 'signac.__main__'])
+
+
+RULES = [c02_a, c02_b, c02_c, c02_d, c02_e, c02_f, c02_g, c02_h, c02_i]
